@@ -1,6 +1,17 @@
 """unit ntlm: src/nla/ntlm.rs (NTLMv2 token computation, CHALLENGE parsing, session security) over unit rc4.
 C15 (AUTHENTICATE accepted by an independent MS-NLMP server), C16 (sealing per MS-NLMP, state continuity, round trip, tamper rejection = acceptance condition),
-C07 (hostile CHALLENGE bytes), C04 (NTLM field offsets), C17 (password enters only through MD4), C01 (gss_unwrapex acceptance condition)."""
+C07 (hostile CHALLENGE bytes), C04 (NTLM field offsets), C17 (password enters only through MD4), C01 (gss_unwrapex acceptance condition).
+
+Every function of ntlm.rs is extracted and verified, except
+  * md4 / md5 / hmac_md5 / unicode: Stubs (external crates md4, md-5, hmac; std encode_utf16) against uninterpreted spec functions;
+  * model::rnd::random: trusted Raw (only the length of the result is specified);
+  * the expression `user.to_uppercase() + &domain` in ntowfv2 / ntowfv2_hash: Verus dies on `String + &str` (internal error), so the expression is
+    rewritten (declared R6 body_sub) to the trusted helper `upper_concat` (Raw std_string); the rest of both bodies is verified;
+  * `[..].concat()` (unstable std trait Concat, cannot be named in an assume_specification): declared R6 body_sub to concat_vecs / concat_slices,
+    two helpers with REAL, VERIFIED bodies (Raw concat_helpers: not trusted);
+  * the three trait-impl methods that need a caller-order precondition (read_challenge_message, build_security_interface, gss_wrapex): a trait impl cannot
+    add `requires`, so the real bodies are verified as inherent twins `<name>_checked` under the precondition (see TWINS) and the trait-impl methods stay stubs.
+"""
 from vx.spec import *
 from vx.layouts import shape_clauses
 from specs import rc4 as R
@@ -69,8 +80,7 @@ pub open spec fn lm_response_verifies(key_lm: Seq<u8>, server_challenge: Seq<u8>
     resp.len() == 24 && resp.take(16) == hmac_md5_spec(key_lm, server_challenge + resp.skip(16))
 }
 pub open spec fn session_base_key(key_nt: Seq<u8>, proof: Seq<u8>) -> Seq<u8> { hmac_md5_spec(key_nt, proof) }
-/// SIGNKEY / SEALKEY (3.4.5.2, 3.4.5.3) with extended session security and 128-bit keys
-pub open spec fn c2s_sign_magic() -> Seq<u8>;
+/// SIGNKEY / SEALKEY (3.4.5.2, 3.4.5.3) with extended session security and 128-bit keys: MD5(ExportedSessionKey ++ magic constant)
 pub open spec fn sign_key_spec(exported: Seq<u8>, magic: Seq<u8>) -> Seq<u8> { md5_spec(exported + magic) }
 /// MAC with extended session security and key exchange (3.4.4.2): Version 1, RC4(handle, HMAC_MD5(SigningKey, SeqNum + Message)[0..8]), SeqNum
 pub open spec fn mac_spec(st: rc4::RcState, signing_key: Seq<u8>, seq_num: u32, message: Seq<u8>) -> Seq<u8> {
@@ -81,7 +91,7 @@ pub open spec fn mac_spec(st: rc4::RcState, signing_key: Seq<u8>, seq_num: u32, 
 pub open spec fn seal_spec_fn(st: rc4::RcState, signing_key: Seq<u8>, seq_num: u32, message: Seq<u8>) -> Seq<u8> {
     mac_spec(rc4::advance(st, message.len()), signing_key, seq_num, message) + rc4::rc4_xor(st, message)
 }
-""".replace("pub open spec fn c2s_sign_magic() -> Seq<u8>;\n", ""), mod="ntlm", name="ntlm_specs",
+""", mod="ntlm", name="ntlm_specs",
       trusted="md4 / md-5 / hmac crates: uninterpreted functions with 16-byte outputs (axiom_digest_len); str::to_uppercase uninterpreted"))
 
 A(Raw(r"""
@@ -609,7 +619,7 @@ F("av_pair", ret="c", props=["C07"],
   post="proof { assert(c.fields() =~= av_pair_view()->Comp_0); }")
 SUM8 = "(if check_sum is Some { check_sum->Some_0@.take(8) } else { zeros(8) })"
 SEQ = "(if seq_num is Some { seq_num->Some_0 } else { 0u32 })"
-F("message_signature_ex", ret="c", props=["C16", "C04"], fuel=5,
+F("message_signature_ex", ret="c", props=["C16", "C04", "C07"], fuel=5,
   requires=["check_sum is Some ==> check_sum->Some_0@.len() >= 8"],
   ensures=shape_clauses(NTLM, "message_signature_ex", res="c") + [
       ("C16,C04", "view", "c.mv() == signature_view(%s, %s)" % (SUM8, SEQ)),
@@ -647,7 +657,7 @@ F("ntowfv2_hash", props=["C15"], body_sub=UPPER,
 F("lmowfv2", props=["C15"], ensures=[("C15", "lmowfv2", "r@ == ntowfv2_of_hash(nt_hash_of(password@), user@, domain@)")])
 TEMP = "ntlm_temp(time@, client_challenge@, server_name@)"
 PROOF = "nt_proof_str(response_key_nt@, server_challenge@, %s)" % TEMP
-F("compute_response_v2", props=["C15"], body_sub=CONCAT_VECS,
+F("compute_response_v2", props=["C15", "C07"], body_sub=CONCAT_VECS,
   pre="broadcast use axiom_digest_len; proof { reveal_with_fuel(flat, 9); }",
   ensures=[("C15", "nt-response", "r.0@ =~= %s + %s" % (PROOF, TEMP)),
            ("C15", "nt-response-verifies", "nt_response_verifies(response_key_nt@, server_challenge@, r.0@)"),
@@ -658,14 +668,14 @@ F("compute_response_v2", props=["C15"], body_sub=CONCAT_VECS,
          (r"let nt_proof_str = ", 1, "proof { assert(nt_proof_str@ == hmac_md5_spec(response_key_nt@, server_challenge@ + temp@)); }"),
          (r"let session_base_key = ", 1, "proof { lemma_nt_response_verifies(response_key_nt@, server_challenge@, %s); if client_challenge@.len() == 8 { lemma_lm_response_verifies(response_key_lm@, server_challenge@, client_challenge@); } }" % TEMP)])
 F("kx_key_v2", props=["C15"], ensures=[("C15", "key-exchange-key", "r@ == session_base_key@")])
-F("rc4k", props=["C15"], requires=["1 <= key@.len() <= 256"], ensures=[("C15", "rc4k", "r@ =~= rc4::rc4_xor(rc4::ksa(key@), plaintext@)")])
-F("mic", props=["C15"], body_sub=CONCAT_VECS, pre="proof { reveal_with_fuel(flat, 5); }",
+F("rc4k", props=["C15", "C07"], requires=["1 <= key@.len() <= 256"], ensures=[("C15", "rc4k", "r@ =~= rc4::rc4_xor(rc4::ksa(key@), plaintext@)")])
+F("mic", props=["C15", "C07"], body_sub=CONCAT_VECS, pre="proof { reveal_with_fuel(flat, 5); }",
   ensures=[("C15", "mic", "r@ == hmac_md5_spec(exported_session_key@, negotiate_message@ + challenge_message@ + authenticate_message@)")])
 F("sign_key", props=["C16"], body_sub=CONCAT_SLICES, pre="proof { reveal_with_fuel(flat, 4); }",
   ensures=[("C16", "signkey", "r@ == sign_key_spec(exported_session_key@, if is_client { c2s_sign_magic() } else { s2c_sign_magic() })")])
 F("seal_key", props=["C16"], body_sub=CONCAT_SLICES, pre="proof { reveal_with_fuel(flat, 4); }",
   ensures=[("C16", "sealkey", "r@ == sign_key_spec(exported_session_key@, if is_client { c2s_seal_magic() } else { s2c_seal_magic() })")])
-F("mac", props=["C16"], body_sub=CONCAT_SLICES, fuel=3,
+F("mac", props=["C16", "C07"], body_sub=CONCAT_SLICES, fuel=3,
   pre="broadcast use axiom_digest_len; proof { reveal_with_fuel(flat, 4); lemma_rc4_wf(rc4_handle); }",
   ensures=[("C16", "mac", "r@ =~= mac_spec(old(rc4_handle).view(), signing_key@, seq_num, data@)"),
            ("C16", "handle-advanced-by-8", "final(rc4_handle).view() == rc4::advance(old(rc4_handle).view(), 8)")])
